@@ -16,8 +16,36 @@ NOT_DECIDED = "arbitrary corruption patterns and their interaction with postcard
 ASSUMPTIONS = ["HMAC-SHA256 / SHA-256 from the hmac/sha2 crates are correct", "postcard::from_bytes rejects malformed encodings"]
 
 MGRT = 'persistent_state::PersistentStateManager::<T>'
+ALLOC_SIZED = (r'(Vec|String|VecDeque|HashMap|HashSet|BTreeMap|BytesMut)::<.*>::(resize|with_capacity|reserve|reserve_exact|try_reserve|try_reserve_exact|'
+               r'set_len|resize_with|with_capacity_and_hasher)$|String::(with_capacity|reserve|reserve_exact)$|vec::from_elem$')
 ENTRY = 'persistent_state::WalEntry'
 FILE = 'src/persistent_state.rs'
+
+
+def _is_memsize(e):
+    """is the size expression a constant, the length of something already in memory, the file's own size, or arithmetic /
+    a minimum over such values?  (those need no bound; a value decoded from file *contents* does)"""
+    while True:
+        e = e.strip()
+        if e.k == 'cast' and str(e.a).startswith('IntToInt'):
+            e = e.b
+        elif e.k == 'try':
+            e = e.a
+        else:
+            break
+    if e.k == 'const':
+        return True
+    if e.k == 'call':
+        if re.search(r'::len$|Metadata::len$|::capacity$|::count$', e.a):
+            return True
+        if re.search(r'::min$|cmp::min$', e.a):
+            return any(_is_memsize(a) for a in e.b)
+        if re.search(r'::(saturating_sub|saturating_add|checked_add|wrapping_add|max)$', e.a):
+            return all(_is_memsize(a) for a in e.b)
+        return False
+    if e.k == 'bin' and e.a in ('Add', 'Sub', 'Mul', 'Div', 'AddWithOverflow', 'SubWithOverflow', 'MulWithOverflow'):
+        return _is_memsize(e.b) and _is_memsize(e.c)
+    return False
 
 
 def run(ctx):
@@ -226,15 +254,27 @@ def run(ctx):
     # ------------------------------------------------------------------ 4. allocation bounds
     nalloc = 0
     for b in bodies:
-        for cs in b.calls(r'Vec::<.*>::resize$|vec::from_elem$|Vec::<.*>::with_capacity$|Vec::<.*>::reserve$'):
-            # the size operand
-            idx = 1 if cs.callee.endswith('resize') or cs.callee.endswith('reserve') or cs.callee.endswith('from_elem') else 0
+        for cs in b.calls(ALLOC_SIZED):
+            # the size operand (closed world: every allocation-sizing call of the module is looked at; a size that is a
+            # constant or the length of something already in memory / the file's own size needs no bound, anything else —
+            # a length prefix, a field of a decoded header or record — does)
+            idx = 0 if re.search(r'with_capacity(_and_hasher)?$', cs.callee) else 1
             if idx >= len(cs.args):
                 continue
             sz = b.expr(cs.args[idx])
-            if not sz.mentions_call(r'from_(le|be|ne)_bytes$'):
+            if sz.const_value() is not None:
                 continue
-            src = sz.mentions_call(r'from_(le|be|ne)_bytes$')
+            if _is_memsize(sz):
+                continue
+            # the value that sizes the allocation: the size expression itself with widenings peeled (a from_le_bytes deeper
+            # inside — e.g. the prefix that sized the buffer a header was decoded from — is a different value)
+            src = sz
+            while True:
+                src = src.strip()
+                if src.k == 'cast' and str(src.a).startswith('IntToInt'):
+                    src = src.b
+                else:
+                    break
             nalloc += 1
             ordn = sum(1 for o in ctx.obls if o.key.startswith('alloc@%s' % b.id))
             conds = F.dominating_conds(b, cs.bb)
@@ -265,11 +305,12 @@ def run(ctx):
                 if isinstance(cv, int) and cv >= 0xFFFFFFFF:
                     continue
                 bounded = True
-            if sz.mentions_call(r'::min$|cmp::min$') is not None:
-                bounded = True
+            top = uncast(sz)
+            if top.k == 'call' and re.search(r'::min$|cmp::min$', top.a):
+                bounded = True      # min(x, bound) at the top of the size expression (a min deeper inside bounds something else)
             ctx.ob('ALLOC-BOUND', 'alloc@%s#%d' % (b.id, ordn), bounded, cs.where(),
-                   'buffer of %s bytes (length prefix read from the file) is allocated %s' % (
-                       sz.brief(80), 'under an upper bound' if bounded else 'with NO upper bound: a damaged 4-byte prefix requests up to 4 GiB'), entry=b.root)
+                   'buffer of %s bytes (a length read from the file) is allocated %s' % (
+                       sz.brief(80), 'under an upper bound' if bounded else 'with NO upper bound: a damaged length field requests an arbitrary amount of memory (or panics with capacity overflow)'), entry=b.root)
     ctx.floor('ALLOC-BOUND', 3)
 
     # ------------------------------------------------------------------ 5. skipped records are counted
